@@ -324,8 +324,8 @@ func VerifC08_InvalidPattern() {
 	case 6:
 		err = fs.RemoveWithContextAndExclusionPatterns(ctx, root, bad...)
 	}
-	verif.AssertKnown("invalid_pattern_rejected", err != nil && commonerrors.Any(err, commonerrors.ErrInvalid),
-		"KF-C08-invalid-pattern-ignored-on-empty-dir", op >= 5 && len(nodes) == 0)
+	verif.Assert("invalid_pattern_rejected", err != nil && commonerrors.Any(err, commonerrors.ErrInvalid))
+	_ = nodes
 	verif.Assert("nothing_touched", len(rec.mutations()) == 0 && vSameTree(before, vSnapshot(rec.inner, "/")))
 }
 
